@@ -4,7 +4,7 @@ from dataclasses import dataclass
 from functools import cached_property
 
 from predicate.predicate import Predicate
-from predicate.this_predicate import predicate_in_predicate_tree
+from predicate.this_predicate import is_library_frame, predicate_in_predicate_tree
 
 
 @dataclass
@@ -31,6 +31,8 @@ class RootPredicate[T](Predicate[T]):
 
 def find_root_predicate(start_frame, predicate: Predicate) -> Predicate | None:
     for frame in get_frames(start_frame):
+        if is_library_frame(frame):
+            continue
         for key, value in reversed(frame.f_locals.items()):
             if isinstance(value, Predicate) and value != predicate and key != "self":
                 if predicate_in_predicate_tree(value, predicate):
